@@ -178,6 +178,20 @@ def _neg(r):
 
 def sym_equal(a, b):
     """a == b for z3 real terms: bool when decided by normalisation, else SBool."""
+    memo = E.ENG.__dict__.setdefault("_eqmemo", {})
+    if E.ENG.__dict__.get("_eqmemo_path") != E.ENG.npaths:
+        memo.clear()
+        E.ENG._eqmemo_path = E.ENG.npaths
+    key = (a.get_id(), b.get_id())
+    hit = memo.get(key)
+    if hit is not None:
+        return hit[0]
+    r = _sym_equal(a, b)
+    memo[key] = (r, a, b)  # keep the terms alive: AST ids are reused after garbage collection
+    return r
+
+
+def _sym_equal(a, b):
     d, d1, d2 = cross_diff(a, b)
     if z3.is_rational_value(d):
         return d.as_fraction() == 0
